@@ -35,14 +35,14 @@ type PartySpec struct {
 }
 
 type StepSpec struct {
-	Op      string `json:"op"`                 // rinit, rresp, rdata, tun, kick, restart, cookie, setkey
+	Op      string `json:"op"`                 // rinit, rresp, rdata, tun, kick, restart, cookie, setkey, age, ghost
 	Party   int    `json:"party"`              // acting ref party (rinit, rresp, rdata) or addressed peer (tun, kick)
 	RespKey string `json:"resp_key,omitempty"` // rinit: "" = the device's key, "other" = another key S', "old" = the device's previous key
 	MacKey  string `json:"mac_key,omitempty"`  // rinit: "" = the device's key, "other" = the other key, "old" = the device's previous key
 	Ts      string `json:"ts,omitempty"`       // rinit: "" = newer, "same", "old"
 	Of      int    `json:"of"`                 // rresp: the peer whose device initiation is answered
 	Which   string `json:"which,omitempty"`    // rresp / rdata: "" = latest, "older"
-	Kind    string `json:"kind,omitempty"`     // cookie: "authentic", "garbage", "wrongkey", "wrongad", "oldad"
+	Kind    string `json:"kind,omitempty"`     // cookie: "authentic", "garbage", "wrongkey", "wrongad", "oldad"; age: "" = 121 s, "short" = 50 s
 }
 
 type Scenario struct {
@@ -573,6 +573,30 @@ func (r *runner) step(si int, sp StepSpec) {
 				r.c.DataOK++
 			}
 		}
+	case "ghost":
+		// UAPI: update_only=true for a key that is not configured must create nothing
+		if p.rp.Configured || p.spec.Kind == "self" {
+			return
+		}
+		cfg := fmt.Sprintf("public_key=%x\nupdate_only=true\nendpoint=%s\nallowed_ip=10.0.%d.2/32\n", p.rp.Pub[:], p.rp.Addr, sp.Party+1)
+		if p.refPsk != (ref.Key{}) {
+			cfg = fmt.Sprintf("public_key=%x\nupdate_only=true\npreshared_key=%x\nendpoint=%s\nallowed_ip=10.0.%d.2/32\n", p.rp.Pub[:], p.refPsk[:], p.rp.Addr, sp.Party+1)
+		}
+		_, out := r.w.Set(cfg)
+		so.Event = fmt.Sprintf("ghost %d", p.kid)
+		r.observe(out, &so, nil)
+	case "age":
+		// time passes for every peer's received cookie: 121 s (beyond CookieRefreshTime) or 50 s (well within)
+		secs := 121
+		if sp.Kind == "short" {
+			secs = 50
+		}
+		for _, q := range r.configured() {
+			r.w.Dev.VerifShiftPeerCookie(cosim.NoisePK(q.rp.Pub), time.Duration(secs)*time.Second)
+		}
+		out := r.w.Take()
+		so.Event = fmt.Sprintf("age %d", secs)
+		r.observe(out, &so, nil)
 	case "setkey":
 		// UAPI private_key=: only at a quiescent point, never a configured peer's key (design findings F3b, F3c)
 		priv := ref.NewPrivate()
@@ -704,11 +728,11 @@ func anyParty(r *rand.Rand, k int) PartySpec {
 func st(op string, party int) StepSpec { return StepSpec{Op: op, Party: party, Of: party} }
 
 func genScenario(r *rand.Rand, k int) Scenario {
-	tmpl := k % 19
-	main := anyParty(r, k/19+k)
+	tmpl := k % 21
+	main := anyParty(r, k/21+k)
 	pskParty := func() PartySpec { // a configured party whose device-side psk is NOT zero, or a mismatching one
 		l := []PartySpec{{"ok", "rand"}, {"pskmis", "rand"}, {"pskmis", "refzero"}, {"ok", "rand"}, {"pskmis", "zero"}, {"ok", "zero"}}
-		return l[(k/19)%len(l)]
+		return l[(k/21)%len(l)]
 	}
 	forged := []string{"garbage", "wrongkey", "wrongad", "oldad"}
 	switch tmpl {
@@ -783,12 +807,12 @@ func genScenario(r *rand.Rand, k int) Scenario {
 	case 12: // an unauthentic cookie reply before a retransmitted initiation and before a response
 		p := pick(r, okKinds)
 		return Scenario{Parties: []PartySpec{p}, Gen: "forged-cookie-initiator",
-			Steps: []StepSpec{st("kick", 0), {Op: "cookie", Party: 0, Of: 0, Kind: forged[(k/19)%4]}, st("kick", 0),
+			Steps: []StepSpec{st("kick", 0), {Op: "cookie", Party: 0, Of: 0, Kind: forged[(k/21)%4]}, st("kick", 0),
 				{Op: "cookie", Party: 0, Of: 0, Kind: forged[r.Intn(4)]}, st("rresp", 0), st("rdata", 0), st("rinit", 0), st("kick", 0)}}
 	case 13: // the same with the device as responder (receiver = index of its response = keypair index)
 		p := pick(r, okKinds)
 		return Scenario{Parties: []PartySpec{p, pick(r, outKinds)}, Gen: "forged-cookie-responder",
-			Steps: []StepSpec{st("rinit", 0), {Op: "cookie", Party: 1, Of: 0, Kind: forged[(k/19)%4]}, st("rinit", 0),
+			Steps: []StepSpec{st("rinit", 0), {Op: "cookie", Party: 1, Of: 0, Kind: forged[(k/21)%4]}, st("rinit", 0),
 				{Op: "cookie", Party: 0, Of: 0, Kind: forged[r.Intn(4)]}, st("kick", 0), st("rdata", 0), st("rinit", 0)}}
 	case 14: // an authentic cookie reply: MAC2 is then the MAC under that cookie, also across a restart
 		p := pick(r, okKinds)
@@ -805,10 +829,23 @@ func genScenario(r *rand.Rand, k int) Scenario {
 				st("tun", 0), st("setkey", 0), st("kick", 0), st("rresp", 0)}}
 	case 17: // peers configured first, the private key in a later set operation
 		steps := []StepSpec{st("setkey", 0), st("rinit", 0), st("rdata", 0), st("tun", 0), st("kick", 1), st("rresp", 1), st("rdata", 1)}
-		if (k/19)%2 == 1 {
+		if (k/21)%2 == 1 {
 			steps = []StepSpec{st("setkey", 0), st("tun", 0), st("rresp", 0), st("rdata", 0), st("rinit", 1), st("rdata", 1), st("tun", 1)}
 		}
 		return Scenario{Parties: []PartySpec{pskParty(), pick(r, okKinds)}, Gen: "peers-before-key", NoPriv: true, Steps: steps}
+	case 18: // a cookie is good for 120 s only: afterwards MAC2 is zero again, in initiations and responses
+		p := pick(r, okKinds)
+		steps := []StepSpec{st("kick", 0), {Op: "cookie", Party: 0, Of: 0, Kind: "authentic"}, {Op: "age", Kind: "short"}, st("kick", 0),
+			st("age", 0), st("kick", 0), st("rinit", 0), {Op: "cookie", Party: 0, Of: 0, Kind: "authentic"}, st("rinit", 0), st("age", 0), st("rinit", 0), st("kick", 0)}
+		if (k/21)%2 == 1 { // the cookie answers a response, expires, then the device initiates
+			steps = []StepSpec{st("rinit", 0), {Op: "cookie", Party: 0, Of: 0, Kind: "authentic"}, st("rinit", 0), st("age", 0), st("kick", 0),
+				st("rinit", 0), st("restart", 0), st("kick", 0), st("rresp", 0), st("rdata", 0)}
+		}
+		return Scenario{Parties: []PartySpec{p}, Gen: "cookie-expiry", Steps: steps}
+	case 19: // update_only for an unknown key configures nobody, also after a restart
+		return Scenario{Parties: []PartySpec{pick(r, okKinds), outKinds[(k/21)%2]}, Gen: "update-only-unknown-key",
+			Steps: []StepSpec{st("ghost", 1), st("rinit", 1), st("restart", 0), st("rinit", 1), st("rdata", 1), st("rinit", 0), st("rdata", 0),
+				st("ghost", 1), st("rinit", 1), st("tun", 0)}}
 	default: // several peers, random interleaving
 		n := 2 + r.Intn(3)
 		var ps []PartySpec
@@ -856,6 +893,11 @@ func genScenario(r *rand.Rand, k int) Scenario {
 				s.Op = "restart"
 			case x < 95:
 				s.Op = "setkey"
+			case x < 96:
+				s.Op = "age"
+				if r.Intn(3) == 0 {
+					s.Kind = "short"
+				}
 			default:
 				s.Op = "cookie"
 				s.Kind = []string{"authentic", "garbage", "wrongkey", "wrongad", "oldad"}[r.Intn(5)]
@@ -969,7 +1011,7 @@ func writeShard(path string, cases []*Case) error {
 
 func main() {
 	seed := flag.Int64("seed", 1, "PRNG seed")
-	n := flag.Int("n", 76, "number of scenarios")
+	n := flag.Int("n", 84, "number of scenarios")
 	shards := flag.Int("shards", 8, "case files")
 	out := flag.String("out", "out/C03", "output directory")
 	replayIn := flag.String("replay", "", "JSON file with scenarios (parties + steps) to run")
